@@ -159,6 +159,16 @@ def _pow2_factor(rng, mag):
     return k
 
 
+COUNT_FORMS = ['int', 'int', 'int', 'np.uint8', 'np.uint16', 'np.uint64', 'np.int16', 'np.intp']
+
+
+def _count_form(v, form):
+    """A count-like argument as Python int or as numpy signed / unsigned integer scalar."""
+    if form == 'int' or v is None:
+        return v
+    return getattr(np, form[3:])(v)
+
+
 def _key(row):
     """NaN-safe exact identity of a table row."""
     return np.ascontiguousarray(np.asarray(row, float) + 0.0).tobytes()
@@ -346,6 +356,10 @@ def _run_find_peaks(case):
     npeaks = np.inf
     if cls == 'fp_npeaks' or rng.random() < 0.1:
         npeaks = int(rng.integers(1, 8))
+        if rng.random() < 0.08:
+            npeaks = 0                      # edge of the range: at most 0 rows
+    cform = str(rng.choice(COUNT_FORMS))    # numpy signed / unsigned scalar forms of the count-like arguments
+    case.note('axis3_count_form_' + cform)
     cfunc, cname, error = None, None, None
     if want_centroid:
         cname = str(rng.choice(['com', 'com', 'quadratic', 'wcom', 'wcom', '1dg']))
@@ -434,7 +448,13 @@ def _run_find_peaks(case):
         if border is not None:
             kws['border_width'] = border
         if np_ != np.inf:
-            kws['npeaks'] = np_
+            kws['npeaks'] = _count_form(np_, cform)
+        if 'box_size' in kws and isinstance(kws['box_size'], int) and (cfunc is None or cform in ('np.int16', 'np.intp')):
+            # (with a centroid function the box goes through as_pair, which rejects unsigned scalars: see the
+            # known finding on border_width; not generated there)
+            kws['box_size'] = _count_form(kws['box_size'], cform)
+        if isinstance(kws.get('border_width'), int) and cform in ('np.int16', 'np.intp'):
+            kws['border_width'] = _count_form(kws['border_width'], cform)
         if cfunc is not None:
             kws['centroid_func'] = cfunc
             if error is not None:
@@ -523,11 +543,40 @@ def _run_find_peaks(case):
                            and core.exact(tbl['skycoord_centroid'].dec.deg[fin], sk.dec.deg),
                            'find_peaks_skycoord_of_centroid', mech)
 
+    # count-like arguments as unsigned numpy scalars: border_width
+    if isinstance(border, int) and cform in ('np.uint8', 'np.uint16', 'np.uint64') and cfunc is None:
+        from photutils.detection import find_peaks as _fp
+        mb_ = dict(mech, arg='border_width', count_form='unsigned')
+        try:
+            with warnings.catch_warnings():
+                warnings.simplefilter('ignore')
+                tb_ = _fp(_layout(data, lay), thr if np.ndim(thr) else float(thr), border_width=_count_form(border, cform),
+                          **{k_: v_ for k_, v_ in kw.items()}, **({} if mask is None else {'mask': mask.copy()}))
+            same_ = (tb_ is not None and len(tb_) == n and np.array_equal(np.asarray(tb_['x_peak']), xs)
+                     and np.array_equal(np.asarray(tb_['y_peak']), ys))
+            case.check(same_, 'find_peaks_count_like_numpy_scalar_equals_int', mb_)
+        except ValueError as exc:
+            if 'must have integer values' not in str(exc):
+                raise
+            case.check(False, 'find_peaks_count_like_numpy_scalar_equals_int', dict(mb_, raised='ValueError'),
+                       msg=str(exc)[:100])
+
     # npeaks: the highest of the unrestricted table
     if npeaks != np.inf:
-        t2, w2 = call(npeaks)
-        m2 = dict(mech, npeaks=True)
-        if case.check(t2 is not None and w2 is False, 'find_peaks_npeaks_not_none', m2):
+        m2 = dict(mech, npeaks=True, count_form=cform, npeaks_zero=bool(npeaks == 0))
+        try:
+            t2, w2 = call(npeaks)
+        except ValueError as exc:
+            if not (npeaks == 0 and cfunc is not None and 'zero-size array' in str(exc)):
+                raise
+            case.check(False, 'find_peaks_npeaks_count', dict(m2, centroid=True, raised='ValueError'), msg=str(exc)[:100])
+            t2, w2 = None, True
+        if npeaks == 0:
+            # edge of the documented range ("maximum number of peaks"): at most 0 rows
+            case.check(t2 is None or len(t2) == 0, 'find_peaks_npeaks_count', m2, got=None if t2 is None else len(t2),
+                       npeaks=0, available=n)
+            case.note('axis3_count_edge_npeaks_zero')
+        elif case.check(t2 is not None and w2 is False, 'find_peaks_npeaks_not_none', m2):
             k = len(t2)
             case.check(k == min(npeaks, n), 'find_peaks_npeaks_count', m2, got=k, npeaks=npeaks, available=n)
             case.check(np.array_equal(np.asarray(t2['id']), np.arange(1, k + 1)), 'find_peaks_ids_1_to_N', m2)
@@ -804,6 +853,12 @@ class _Finder:
                 kw['peakmax'] = np.float64(kw['peakmax'])
             if kw.get('brightest') is not None:
                 kw['brightest'] = np.int64(kw['brightest'])
+        if form.get('count') and form['count'] != 'int':
+            if kw.get('brightest') is not None and float(kw['brightest']).is_integer():
+                kw['brightest'] = _count_form(int(kw['brightest']), form['count'])
+            ms_ = kw.get('min_separation')
+            if ms_ is not None and float(ms_).is_integer() and 0 <= ms_ < 200:
+                kw['min_separation'] = _count_form(int(ms_), form['count'])
         if form.get('xy') == 'list' and kw.get('xycoords') is not None:
             kw['xycoords'] = [[float(a), float(b)] for a, b in kw['xycoords']]
         elif form.get('xy') == 'float' and kw.get('xycoords') is not None:
@@ -1028,7 +1083,8 @@ def _run_star(case):
               'quantity': bool(rng.random() < 0.12),
               'scalars': str(rng.choice(['python', 'python', 'numpy'])),
               'xy': str(rng.choice(['int', 'int', 'float', 'list', 'int32', 'uint16', 'float32'])),
-              'positional': bool(rng.random() < 0.3)}
+              'positional': bool(rng.random() < 0.3),
+              'count': str(rng.choice(COUNT_FORMS))}
     for k_, v_ in F.form.items():
         case.note(f'axis_form_{k_}_{v_}')
 
